@@ -42,7 +42,7 @@ Definition enc_ta (l : list (N * N)) : list N :=
 Definition enc_svc (d : svc) : list N :=
   [sv_name d; sv_tags d; b2n (sv_eto d); sv_rest d; b2n (sv_tanil d)] ++ enc_ta (sv_tau d) ++ enc_ta (sv_tar d).
 Definition enc_chk (d : chk) : list N :=
-  [ck_sid d; ck_status d; ck_out d; ck_rest d; ck_sname d; ck_stags d].
+  [ck_sid d; ck_status d; ck_out d; ck_rest d; ck_sname d; ck_stags d; ck_aux d].
 
 Definition enc_event (e : event) : list N :=
   [1%N; kind_code (e_kind e); e_id e; e_tok e; b2n (e_skip e); b2n (e_withsvc e); out_code (e_out e);
@@ -54,7 +54,7 @@ Definition enc_sentry (x : N * sentry) : list N :=
   match se_def e with Some d => 1%N :: enc_svc d | None => [0%N] end.
 Definition enc_centry (x : N * centry) : list N :=
   let e := snd x in
-  [4%N; fst x; ce_tok e; b2n (ce_sync e); b2n (ce_del e); b2n (ce_loc e)] ++
+  [4%N; fst x; ce_tok e; b2n (ce_sync e); b2n (ce_del e); b2n (ce_loc e); b2n (ce_defer e)] ++
   match ce_def e with Some d => 1%N :: enc_chk d | None => [0%N] end.
 
 Definition rows (r : res) (log : list event) (st : lstate) (c : cat) : list (list N) :=
